@@ -18,7 +18,7 @@ from .queries import call
 
 # sort-sensitive names: digits, upper/lower case, punctuation, unicode; ranks = positions in Python's own order
 NAMES = sorted(["0", "10", "2", "A", "B", "Z.txt", "_x", "a", "a.txt", "a1", "a10", "a2", "b", "b B", "Ä", "ä",
-                "日本", "z"])
+                "日本", "z", "cafe.txt", "cafe\u0301.txt", "cafz.txt", "caf\u00e9.txt", ".hidden"])   # NFD and NFC forms
 assert NAMES == sorted(NAMES) and len(set(NAMES)) == len(NAMES)
 RANK = {nm: i + 1 for i, nm in enumerate(NAMES)}
 
@@ -27,10 +27,29 @@ def valid_dir(st):
     return all((not st["kids"][i]) or st["knd"][i] == 2 for i in range(st["n"]))
 
 
+# pairs of names whose relative order depends on the sort key (case folding, numeric, unicode normalisation, ...)
+SENSITIVE = [("cafe\u0301.txt", "cafz.txt"), ("caf\u00e9.txt", "cafz.txt"), ("A", "a"), ("B", "a"), ("10", "2"), ("a10", "a2"),
+             ("Z.txt", "a.txt"), (".hidden", "0"), ("_x", "a"), ("\u00c4", "z"), ("b B", "b")]
+
+
 def assign_ranks(st, rng):
     rank = [0] * st["n"]
     for sibs in [st["top"]] + st["kids"]:
         rs = rng.sample(range(1, len(NAMES) + 1), len(sibs))
+        if len(sibs) >= 2 and rng.random() < 0.7:
+            # same-kind siblings get an order-sensitive pair of names
+            kinds = {}
+            for i in sibs:
+                kinds.setdefault(st["knd"][i - 1], []).append(i)
+            grp = [v for v in kinds.values() if len(v) >= 2]
+            if grp:
+                a, b = rng.choice(SENSITIVE)
+                pair = [RANK[a], RANK[b]]
+                rng.shuffle(pair)
+                rest = [r for r in rs if r not in pair]
+                chosen = grp[0][:2]
+                it = iter(rest)
+                rs = [pair[chosen.index(i)] if i in chosen else next(it) for i in sibs]
         for i, r in zip(sibs, rs):
             rank[i - 1] = r
     return rank
@@ -49,7 +68,8 @@ def materialise(st, rank, root):
         else:
             with open(p, "wb") as f:
                 f.write(b"x" * ((i * 37) % 50))
-            os.utime(p, (1_600_000_000 + i * 1000, 1_600_000_000 + i * 1000 + 0.5))
+            mt = 0 if i % 4 == 0 else 1_600_000_000 + i * 1000 + 0.5     # some files carry the epoch itself as mtime
+            os.utime(p, (mt, mt))
 
     for i in st["top"]:
         mk(i, root)
